@@ -43,7 +43,7 @@ def source(spec):
         base_name = None
         if spec.get("base"):
             b = spec["base"]
-            lines.append(cls_src(f"{prefix}Base", b["fields"], b.get("flags", {}), None, False))
+            lines.append(cls_src(f"{prefix}Base", b["fields"], b.get("flags", {}), None, bool(b.get("user_state"))))
             if prefix == "S" and b.get("slotted"):
                 lines.append(f"SBase = classes.slotted(SBase, dict={b.get('dict', False)}, weakref={b.get('weakref', False)})")
             base_name = f"{prefix}Base"
@@ -225,6 +225,10 @@ def specs(tier="quick", seed=0):
                     for nested in (False, True):
                         out.append({"fields": fields, "flags": dict(flags), "base": base, "dict": False, "weakref": False,
                                     "user_state": user_state, "nested": nested})
+                    # user state methods declared on the *base* (the child inherits them)
+                    if not user_state:
+                        out.append({"fields": fields, "flags": dict(flags), "base": dict(base, user_state=True), "dict": False, "weakref": False,
+                                    "user_state": False, "nested": False})
                     # every (dict, weakref) combination on top of a base - slotted or not (an unslotted base already gives its
                     # instances a __dict__ and a __weakref__: nothing to add then, and nothing to trip over)
                     for d, w in itertools.product((False, True), repeat=2):
